@@ -56,8 +56,8 @@ func splitPlans() []codingPlan {
 		{"cmpp", 8, []rune("ab中é"), []rune{0x1F600, 0x10000}, ucs, 140, 134},
 		{"cmpp", 9, []rune("xy文"), []rune{0x1F601}, ucs, 140, 134},
 		{"cmpp", 15, []rune("ab1"), []rune{'中', '文', 0x1F600, 'ß'}, gb, 140, 134},
-		{"smpp", 0, []rune("ab1@ "), []rune("[]{}€^"), gsmU, 160, 153},
-		{"smpp", 99, []rune("ab1@ \r"), []rune("[]{}€|"), gsmU, 160, 153},
+		{"smpp", 0, []rune("ab1@ "), []rune("[]{}€^~\\|\f"), gsmU, 160, 153},
+		{"smpp", 99, []rune("ab1@ \r"), []rune("[]{}€^~\\|\f"), gsmU, 160, 153},
 		{"smpp", 1, []rune("ab1 "), nil, one, 140, 134},
 		{"smpp", 3, []rune("abé€ÿ"), nil, one, 140, 134},
 		{"smpp", 8, []rune("ab中"), []rune{0x1F600}, ucs, 140, 134},
@@ -150,6 +150,16 @@ func genSplit(g *genCtx) {
 						m := p.multi[r.Intn(len(p.multi))]
 						emit(Case{"k": "split", "proto": p.proto, "req": p.req, "ref": refs[r.Intn(3)],
 							"text": planText(r, p, total, map[int]rune{at: m})})
+					}
+				}
+				// every multi-unit character of the plan on the last unit of the first and of the second part
+				if !big && (nb == 2 || nb == 3) {
+					for _, m := range p.multi {
+						for _, at := range []int{p.per - 1, 2*p.per - 1} {
+							if at < total {
+								emit(Case{"k": "split", "proto": p.proto, "req": p.req, "ref": 7, "text": planText(r, p, total, map[int]rune{at: m})})
+							}
+						}
 					}
 				}
 				// several multi-unit characters, one before every boundary (shifts accumulate)
